@@ -1,6 +1,6 @@
 """C06 — predicates compile to xor-oracles |x>|y> -> |x>|y xor f(x)>."""
 from .. import harness as H
-from .. import sim
+from .. import pyref, sim
 from . import compiled_common as CC
 
 ID = "C06"
@@ -8,12 +8,14 @@ CONFIGS = [("default", True), ("fast", True)]
 
 META = {
     "rule": "cases = every bool-returning program of the bounded typed grammar x {default,fast} optimizer, uncompute=True; "
-            "each circuit is simulated on ALL 2^n inputs twice: output qubit preset to 0 and to 1. Non-trivial = f is "
+            "each circuit is simulated on ALL 2^n inputs twice: output qubit preset to 0 and to 1; the output must be y xor f(x) with f the Python "
+            "predicate, arguments unchanged, scratch qubits zero. Non-trivial = f is "
             "non-constant, depends on >= 2 input bits; distinct = distinct truth tables of f among those.",
     "bound": {"quick": "bool-returning members of the C02 quick lists", "thorough": "bool-returning members of the C02 thorough lists"},
     "assumptions": [
         "bitsim is the meaning of a classical reversible circuit (cross-checked against the state-vector simulator)",
-        "f is the boolean function denoted by the function's own return expression (boolev); C01 judges f itself",
+        "the flip pattern is compared both with the function's own return expression (boolev) and with the Python predicate executed by "
+        "CPython on every input (pyref; rows whose intermediate values overflow are not judged)",
         "a program rejected with an exception is counted, not judged",
     ],
     "explanation": "states = compiled predicates; transitions = (input, initial output value) pairs simulated = 2 * 2^n per case.",
@@ -65,8 +67,22 @@ def run_case(case):
             if q != oq and cols[q]:
                 bad.append({"y": y, "qubit": q, "role": "scratch", "why": "scratch qubit not returned to zero",
                             "wrong_rows": sim.popcount(cols[q]), "first_rows": sim.rows_of(cols[q], rows)})
+    counters = {}
+    if not bad:
+        # f itself: the Python predicate (CPython reference semantics), wherever that is determined
+        try:
+            pr = pyref.Program(case["src"])
+            if pr.n_inputs() == n and pr.ret.width() == 1:
+                want, care, und = pr.table(None)
+                d = (f ^ want[0]) & care[0]
+                counters["compared_with_python_predicate"] = 1
+                if d:
+                    bad.append({"y": 0, "qubit": oq, "role": "output", "why": "the circuit flips the output on inputs where the Python predicate is false (or not where it is true)",
+                                "wrong_rows": sim.popcount(d), "first_rows": sim.rows_of(d, rows)})
+        except pyref.Unsupported:
+            counters["python_predicate_unsupported_by_reference"] = 1
     nontrivial = f not in (0, M) and CC.support_size(f, n, M) >= 2
-    out = {"status": "ok", "rows": 2 * rows, "nontrivial": nontrivial, "outcome": H.h12((n, f))}
+    out = {"status": "ok", "rows": 2 * rows, "nontrivial": nontrivial, "outcome": H.h12((n, f)), "counters": counters}
     if bad:
         out["status"] = "violation"
         out["detail"] = {"bad": bad[:4], "n_inputs": n, "num_qubits": qc.num_qubits, "output_qubit": oq,
